@@ -23,6 +23,7 @@ type relayOpts struct {
 	MaxBody    int
 	RichRoute  bool  // C13-style route sets
 	JoinOpaque bool  // undecodable Via entries may share a header line with decodable ones (below the first line)
+	LongLists  bool  // now and then a Record-Route list long enough that joined lines exceed the 4096-byte reader window
 	Entries    []int // listen entries to use as ingress
 	NoTCP      bool
 }
@@ -299,6 +300,11 @@ func (s *stdSvc) gRelayRequest(rt *rapid.T, o relayOpts) relayCase {
 	}
 	for i := 0; i < nrr; i++ {
 		p.RRs = append(p.RRs, s.gRouteEntry(rt, fmt.Sprintf("rr%d", i)))
+	}
+	if o.LongLists && rapid.IntRange(0, 9).Draw(rt, "a long Record-Route list") == 0 {
+		for i, k := 0, rapid.IntRange(130, 220).Draw(rt, "long list entries"); i < k; i++ {
+			p.RRs = append(p.RRs, ANameAddr{URI: AURI{Scheme: "sip", Host: fmt.Sprintf("hop%03d.example.net", i), Params: []AParam{{K: "lr"}}}})
+		}
 	}
 	p.Ext = gExtHeaders(rt, "ext", o.MaxExt, o.MaxLong)
 	p.Body = gBody(rt, "body", o.MaxBody)
